@@ -307,6 +307,15 @@ def runM {W α : Type} (x : Rs.M W α) (w : W) : Except Rs.Err α × W := x.run.
   cases h : x w with
   | mk r w' => cases r <;> simp [pure, StateT.pure]
 
+/-- `f <$> x` (what `do pure (g (← x))` elaborates to): the effect of `x`, then `f` on its value -/
+theorem runM_map {W α β : Type} (f : α → β) (x : Rs.M W α) (w : W) :
+    runM (f <$> x) w = match runM x w with
+      | (.ok a, w') => (.ok (f a), w')
+      | (.error e, w') => (.error e, w') := by
+  rw [map_eq_pure_bind, runM_bind]
+  rcases runM x w with ⟨r, w'⟩
+  cases r <;> rfl
+
 @[simp] theorem runM_capture {W α : Type} (x : Rs.M W α) (w : W) :
     runM (Rs.capture x) w = (.ok (runM x w).1, (runM x w).2) := by
   simp only [runM, Rs.capture, ExceptT.lift, ExceptT.run, ExceptT.mk, StateT.run, Functor.map, StateT.map,
@@ -444,7 +453,8 @@ theorem plan_file_async_run (p : StrategyPlanner) (src : FileEntry) (w : PlanWor
     simp only [extOf_t_exists, extOf_t_metadata, runM_bind, runM_capture, runM_probe, runM_pure, ↓reduceIte,
       PlanWorld.existsAt, PlanWorld.metaAt, hjp]
     cases hs : w.stat (Rs.join w.root src.relative_path) <;>
-      simp [Rs.unwrap_or, Rs.UnwrapOr.unwrap_or, Rs.is_dir]
+      simp [Rs.unwrap_or, Rs.UnwrapOr.unwrap_or, Rs.is_dir, runM_map, runM_bind, runM_pure, runM_capture, runM_probe,
+        extOf_t_metadata, PlanWorld.metaAt, hjp, hs]
 
 /-! ### `plan_deletions`, read at the level of the world -/
 
